@@ -74,13 +74,15 @@ structure Same (s s' : St) : Prop where
   sd : s'.sd = s.sd
   regl : s'.regl = s.regl
   stopped : s'.stopped = s.stopped
+  wgc : s'.wgc = s.wgc
 
-theorem same_refl (s : St) : Same s s := ⟨rfl, rfl, rfl, rfl, rfl⟩
+theorem same_refl (s : St) : Same s s := ⟨rfl, rfl, rfl, rfl, rfl, rfl⟩
 
-theorem same_emit (e : Ev) (s : St) : Same s (emit e s) := ⟨rfl, rfl, rfl, rfl, rfl⟩
+theorem same_emit (e : Ev) (s : St) : Same s (emit e s) := ⟨rfl, rfl, rfl, rfl, rfl, rfl⟩
 
 theorem same_trans {a b c : St} (h1 : Same a b) (h2 : Same b c) : Same a c :=
-  ⟨h2.n.trans h1.n, h2.objs.trans h1.objs, h2.sd.trans h1.sd, h2.regl.trans h1.regl, h2.stopped.trans h1.stopped⟩
+  ⟨h2.n.trans h1.n, h2.objs.trans h1.objs, h2.sd.trans h1.sd, h2.regl.trans h1.regl, h2.stopped.trans h1.stopped,
+    h2.wgc.trans h1.wgc⟩
 
 theorem termM_same {s s' : St} (h : Same s s') : termM s' = termM s := by
   have h1 : sdRem s' = sdRem s := by
@@ -349,5 +351,181 @@ theorem step_term {s s' : St} {t t' : Th} (hA : InvA s) (hst : s.stopped = true)
       · simp at hs
     | waiting keys => cases keys <;> simp [step] at hs
     | fin => simp [step] at hs
+
+/-! ## no `WaitGroup.Add` once the stopped flag is set
+
+The per-order WaitGroups are waited on only by `stopWorkers` (program points `waitMid`, `waitLast`), which runs after the
+stopped flag was stored under the lock; `Add` is called only by `runBackgroundWorker`, under the lock, by callers that
+found the flag not set under the same lock.  So no `Add` can be concurrent with (or follow) a `Wait`: the misuse panics of
+`sync.WaitGroup` ("Add called concurrently with Wait", "reused before previous Wait has returned") are unreachable. -/
+
+theorem sdBody_wgc {s s' : St} (hs : s' ∈ sdBody s) : s'.wgc = s.wgc := by
+  unfold sdBody at hs
+  cases hsd : s.sd with
+  | idle => simp [hsd] at hs
+  | done => simp [hsd] at hs
+  | taken => simp only [hsd, List.mem_singleton] at hs; subst hs; rfl
+  | stoppedSet =>
+    simp only [hsd] at hs
+    split at hs <;> (simp only [List.mem_singleton] at hs; subst hs) <;> rfl
+  | snap =>
+    simp only [hsd] at hs
+    split at hs <;> (simp only [List.mem_singleton] at hs; subst hs) <;> rfl
+  | loop prev todo =>
+    cases todo with
+    | nil => simp only [hsd, List.mem_singleton] at hs; subst hs; rfl
+    | cons hd rest =>
+      simp only [hsd] at hs
+      split at hs
+      · simp only [List.mem_singleton] at hs; subst hs; rfl
+      · split at hs <;> (simp only [List.mem_singleton] at hs; subst hs) <;> rfl
+  | waitMid prev todo =>
+    simp only [hsd] at hs
+    split at hs
+    · cases todo <;> (simp only [List.mem_singleton] at hs; subst hs) <;> rfl
+    · simp at hs
+  | waitLast prev =>
+    simp only [hsd] at hs
+    split at hs
+    · simp only [List.mem_singleton] at hs; subst hs; rfl
+    · simp at hs
+  | unrun => simp only [hsd, List.mem_singleton] at hs; subst hs; rfl
+  | clr => simp only [hsd, List.mem_singleton] at hs; subst hs; rfl
+
+/-- A worker goroutine never increments a WaitGroup counter (it calls `Done` once). -/
+theorem wkStep_wgc_le {s s' : St} {i : Nat} (hs : s' ∈ wkStep s i) : ∀ o, s'.wgc o ≤ s.wgc o := by
+  unfold wkStep at hs
+  by_cases hi : i < s.n
+  · simp only [hi, if_true] at hs
+    cases hpc : (s.objs i).pc with
+    | reg => simp [hpc] at hs
+    | fin => simp [hpc] at hs
+    | run =>
+      simp only [hpc, List.mem_append, List.mem_singleton] at hs
+      rcases hs with hs | hs
+      · subst hs; intro o; exact Nat.le_refl _
+      · split at hs
+        · simp only [List.mem_singleton] at hs; subst hs; intro o; exact Nat.le_refl _
+        · simp at hs
+    | ret =>
+      simp only [hpc, List.mem_singleton] at hs
+      subst hs
+      intro o
+      show (if o = (s.objs i).order then s.wgc o - 1 else s.wgc o) ≤ s.wgc o
+      split <;> omega
+    | dn =>
+      simp only [hpc] at hs
+      split at hs <;> (simp only [List.mem_singleton] at hs; subst hs) <;> (intro o; exact Nat.le_refl _)
+    | cl =>
+      simp only [hpc, List.mem_singleton] at hs
+      subst hs; intro o; exact Nat.le_refl _
+  · simp [hi] at hs
+
+/-- Under the stopped flag a step is a step that changes nothing of the daemon proper, a worker goroutine's step, or a
+step of the `stopOnce` body. -/
+theorem step_stopped_cases {s s' : St} {t t' : Th} (hA : InvA s) (hst : s.stopped = true)
+    (hs : (s', t') ∈ step true true s t) : Same s s' ∨ (∃ i, s' ∈ wkStep s i) ∨ s' ∈ sdBody s := by
+  have hne := hA.stopped_iff.mp hst
+  cases t with
+  | bw c name order pc =>
+    left
+    cases pc with
+    | call =>
+      simp only [step, hst, if_true, List.mem_singleton, Prod.mk.injEq] at hs
+      rw [hs.1]; exact same_trans (same_emit _ _) (same_emit _ _)
+    | passed =>
+      simp only [step, List.mem_map] at hs
+      obtain ⟨s1, hs1, heq⟩ := hs
+      injection heq with h1 _
+      subst h1
+      have : s1 = emit (.refuse c name .stopped) s := by
+        unfold bwCrit at hs1; simpa [hst] using hs1
+      rw [this]; exact same_emit _ _
+    | fin => simp [step] at hs
+  | starter pc =>
+    left
+    cases pc with
+    | call =>
+      simp only [step, hst, if_true, List.mem_singleton, Prod.mk.injEq] at hs
+      rw [hs.1]; exact same_refl _
+    | passed =>
+      simp only [step, List.mem_singleton, Prod.mk.injEq] at hs
+      rw [hs.1, startCrit_stopped hst]; exact same_refl _
+    | fin => simp [step] at hs
+  | wk i =>
+    right; left
+    simp only [step, List.mem_map] at hs
+    obtain ⟨s1, hs1, heq⟩ := hs
+    injection heq with h1 _
+    subst h1
+    exact ⟨i, hs1⟩
+  | sd c pc =>
+    cases pc with
+    | call =>
+      left
+      simp only [step, List.mem_singleton, Prod.mk.injEq] at hs
+      rw [hs.1]; exact same_emit _ _
+    | enter =>
+      left
+      have e : s' = s := by
+        simp only [step] at hs
+        cases hsd : s.sd with
+        | idle => exact absurd hsd hne.1
+        | _ => simp only [hsd, List.mem_singleton, Prod.mk.injEq] at hs; exact hs.1
+      rw [e]; exact same_refl _
+    | body =>
+      simp only [step] at hs
+      by_cases hd : s.sd = .done
+      · left
+        have e : s' = emit (.sdret c) s := by
+          simp only [hd, List.mem_singleton, Prod.mk.injEq] at hs; exact hs.1
+        rw [e]; exact same_emit _ _
+      · right; right
+        cases hsd : s.sd with
+        | done => exact absurd hsd hd
+        | _ =>
+          simp only [hsd, List.mem_map] at hs
+          obtain ⟨s1, hs1, heq⟩ := hs
+          injection heq with h1 _
+          subst h1
+          exact hs1
+    | blocked =>
+      left
+      have e : s' = emit (.sdret c) s := by
+        simp only [step] at hs
+        cases hsd : s.sd with
+        | done => simp only [hsd, List.mem_singleton, Prod.mk.injEq] at hs; exact hs.1
+        | _ => simp [hsd] at hs
+      rw [e]; exact same_emit _ _
+    | fin => simp [step] at hs
+  | watcher =>
+    left
+    simp only [step, hst, if_true, List.mem_singleton, Prod.mk.injEq] at hs
+    rw [hs.1]; exact same_emit _ _
+  | runner c pc =>
+    left
+    cases pc with
+    | call =>
+      simp only [step, hst, if_true, List.mem_singleton, Prod.mk.injEq] at hs
+      rw [hs.1]; exact same_emit _ _
+    | passed =>
+      simp only [step, List.mem_singleton, Prod.mk.injEq] at hs
+      rw [hs.1, startCrit_stopped hst]; exact same_refl _
+    | started =>
+      simp only [step, if_true] at hs
+      split at hs
+      · simp only [List.mem_singleton, Prod.mk.injEq] at hs
+        rw [hs.1]; exact same_emit _ _
+      · simp at hs
+    | waiting keys => cases keys <;> simp [step] at hs
+    | fin => simp [step] at hs
+
+/-- **No `Add` after the stop**: once the stopped flag is set no step of any thread increments a WaitGroup counter. -/
+theorem step_noadd {s s' : St} {t t' : Th} (hA : InvA s) (hst : s.stopped = true)
+    (hs : (s', t') ∈ step true true s t) : ∀ o, s'.wgc o ≤ s.wgc o := by
+  rcases step_stopped_cases hA hst hs with h | ⟨i, h⟩ | h
+  · intro o; rw [h.wgc]; exact Nat.le_refl _
+  · exact wkStep_wgc_le h
+  · intro o; rw [sdBody_wgc h]; exact Nat.le_refl _
 
 end Hive.Daemon
